@@ -42,11 +42,28 @@
         "entity and numeric character references": xml_predefined_entities, xml_numeric_reference
         layer 2: xml_attribute_value_roundtrip, xml_text_node_roundtrip
    "copies of element values are independent of their
-    source"                                                 -> xml_copies_independent, from
+    source"                                                 -> xml_copies_independent (histories of complete
+        operations: mutable access and write in one step), from
         xml_handle_counts_exact (every reference count = number of Variant objects pointing to the
         block, for every history; so the in-place write path, taken when ref == 1, is seen by the
         written handle alone) and xml_handles_refine_values (the heap model with copy-on-write
         refines the value store of the spec)
+
+        A reference obtained from the non-const toElement() and KEPT by the caller
+        (`Element& e = v.toElement(); Variant w(v); e.type = ...;`):
+                                                            -> xml_copies_independent_refuted_with_held_reference
+        (the write is seen by the copy w: the statement is false of the faithful model for such histories),
+        xml_copies_independent_without_reference_kept_across_copy (the statement under the visible hypothesis
+        "no reference obtained from toElement() is used after a later copy": at the write no other Variant
+        shares the block), xml_held_write_is_complete_operation, xml_reference_exclusive_when_obtained,
+        xml_shared_reference_means_another_variant, xml_handle_counts_exact_with_held_references (counts stay
+        exact in EVERY history, with or without the hypothesis), xml_hold_is_touch
+   The file based entry points Xml::load, Xml::Parser::load, Xml::save (wrappers over File; the file
+   system is an input: the content read / whether the path can be opened)
+                                                            -> xml_load_is_parse_of_file_content,
+        xml_static_load_is_parse_of_file_content, xml_load_total_and_safe (clauses 1-3 of the property for the
+        content of the file), xml_load_missing_file_fails_and_keeps_target, xml_save_writes_toString,
+        xml_save_then_load_roundtrip
 
    One Parser object for several texts, a target Element that already holds something, the static
    wrappers (the property speaks of Xml::parse as a function of the text)
@@ -58,7 +75,7 @@
    Only statements closed by `exact`, each followed by Print Assumptions, plus non-vacuity
    Examples. *)
 From Coq Require Import ZArith List Bool.
-From Xml Require Import Gen_Xml XmlSpec XmlModel XmlProofsCodec XmlProofsScan XmlProofsTotal XmlProofsRound XmlProofsComment XmlProofsContext XmlProofsHandles XmlProofsReuse.
+From Xml Require Import Gen_Xml XmlSpec XmlModel XmlProofsCodec XmlProofsScan XmlProofsTotal XmlProofsRound XmlProofsComment XmlProofsContext XmlProofsHandles XmlProofsReuse XmlProofsFile XmlProofsHeld.
 Import ListNotations.
 Local Open Scope Z_scope.
 
@@ -116,8 +133,8 @@ Print Assumptions xml_second_parse_error_inside_second_text.
 
 Theorem xml_parser_error_fields : forall o tgt s,
   match parse s with
-  | Syn l c m => o_err (fst (parse_with o tgt s)) = (l, c, Some m)
-  | _ => o_err (fst (parse_with o tgt s)) = o_err o
+  | Syn l c m => o_err (fst (parse_with o tgt s)) = Some (l, c, Some m)
+  | _ => o_err (fst (parse_with o tgt s)) = None
   end.
 Proof. exact parse_with_error_fields. Qed.
 Print Assumptions xml_parser_error_fields.
@@ -317,3 +334,115 @@ Example ex_handles_cow :
   vabs (vrun [VElem 0 [97]; VCopy 1 0; VChild 0 1; VCopy 2 0; VSubMut 2 0 [99]; VName 1 [98]]) =
   [Some (N 0 0 [97] [] [N 0 0 [97] [] []]); Some (N 0 0 [98] [] []); Some (N 0 0 [97] [] [N 0 0 [99] [] []])].
 Proof. vm_compute. reflexivity. Qed.
+
+(* ---- a reference obtained from toElement() and kept by the caller -------------------------- *)
+
+(* FALSE of the faithful model when the reference is used after the Variant was copied: element a in slot 0,
+   reference kept, slot 1 := copy of slot 0, write b through the reference - slot 1 changes as well *)
+Theorem xml_copies_independent_refuted_with_held_reference :
+  exists ops nm j,
+    Inv (hvs (hrun ops)) /\ j <> htarget (hrun ops) (HWriteHeld nm) /\
+    sget (vabs (hvs (hstep (hrun ops) (HWriteHeld nm)))) j <> sget (vabs (hvs (hrun ops))) j.
+Proof. exact copies_independent_refuted. Qed.
+Print Assumptions xml_copies_independent_refuted_with_held_reference.
+
+(* the statement under the visible hypothesis [ok_hist]: every write through a kept reference happens while no
+   other Variant shares the block (held_not_shared) - "no reference obtained from toElement() is used after a
+   later copy" *)
+Theorem xml_copies_independent_without_reference_kept_across_copy :
+  forall ops o j, ok_hist (ops ++ [o]) -> j <> htarget (hrun ops) o ->
+    sget (vabs (hvs (hrun (ops ++ [o])))) j = sget (vabs (hvs (hrun ops))) j.
+Proof. exact held_copies_independent. Qed.
+Print Assumptions xml_copies_independent_without_reference_kept_across_copy.
+
+Theorem xml_held_write_is_complete_operation :
+  forall st o, Inv (hvs st) -> held_not_shared st o ->
+    Inv (hvs (hstep st o)) /\
+    vabs (hvs (hstep st o)) = match hop_vop st o with Some v => vstep (vabs (hvs st)) v | None => vabs (hvs st) end.
+Proof. exact hstep_ok. Qed.
+Print Assumptions xml_held_write_is_complete_operation.
+
+Theorem xml_reference_exclusive_when_obtained :
+  forall st i, gget (slots (hvs st)) i <> None ->
+    exists b, held (hstep st (HHold i)) = Some (i, b) /\ exclusive (hvs (hstep st (HHold i))) i b = true.
+Proof. exact hold_exclusive. Qed.
+Print Assumptions xml_reference_exclusive_when_obtained.
+
+Theorem xml_shared_reference_means_another_variant :
+  forall s i b, Inv s -> block_of_slot s i = Some b -> exclusive s i b = false ->
+    (2 <= cnt b (srefs (slots s)) + cnt b (lrefs (hp s)))%nat.
+Proof. exact shared_means_another_variant. Qed.
+Print Assumptions xml_shared_reference_means_another_variant.
+
+Theorem xml_handle_counts_exact_with_held_references : forall ops : list hop, Inv (hvs (hrun ops)).
+Proof. exact hrun_inv. Qed.
+Print Assumptions xml_handle_counts_exact_with_held_references.
+
+Theorem xml_hold_is_touch : forall s i, Inv s -> VName i (cur_name s i) = touch_op (vabs s) i.
+Proof. exact cur_name_spec. Qed.
+Print Assumptions xml_hold_is_touch.
+
+(* the witness in full: both slots read b afterwards; with the write before the copy, and a fresh reference
+   for the next write, the copy keeps b while the source becomes c *)
+Example ex_held_reference :
+  vabs (hvs (hrun [HOp (VElem 0 [97]); HHold 0; HOp (VCopy 1 0); HWriteHeld [98]])) = [Some (N 0 0 [98] [] []); Some (N 0 0 [98] [] [])] /\
+  vabs (hvs (hrun [HOp (VElem 0 [97]); HHold 0; HWriteHeld [98]; HOp (VCopy 1 0); HHold 0; HWriteHeld [99]]))
+    = [Some (N 0 0 [99] [] []); Some (N 0 0 [98] [] [])].
+Proof. split; vm_compute; reflexivity. Qed.
+Example ex_ok_hist : ok_hist [HOp (VElem 0 [97]); HHold 0; HWriteHeld [98]].
+Proof.
+  apply (ok_snoc [HOp (VElem 0 [97]); HHold 0]); [|vm_compute; reflexivity].
+  apply (ok_snoc [HOp (VElem 0 [97])]); [|exact I].
+  apply (ok_snoc []); [apply ok_nil|exact I].
+Qed.
+
+(* ---- the file based entry points ----------------------------------------------------------- *)
+
+Theorem xml_load_is_parse_of_file_content :
+  forall o tgt d, snd (load_with o tgt (FData d)) = LParsed (parse d).
+Proof. exact load_is_parse. Qed.
+Print Assumptions xml_load_is_parse_of_file_content.
+
+Theorem xml_static_load_is_parse_of_file_content :
+  forall g tgt d, static_load g tgt (FData d) = LParsed (parse d).
+Proof. exact static_load_is_parse. Qed.
+Print Assumptions xml_static_load_is_parse_of_file_content.
+
+Theorem xml_load_total_and_safe : forall o tgt d,
+  match snd (load_with o tgt (FData d)) with
+  | LParsed (Ok _) => True
+  | LParsed (Syn l c _) => inside_text d l c
+  | LParsed Oob => False
+  | LParsed Fuel => False
+  | LNotRead => False
+  end.
+Proof. exact load_total_safe. Qed.
+Print Assumptions xml_load_total_and_safe.
+
+Theorem xml_load_missing_file_fails_and_keeps_target : forall o tgt e,
+  snd (load_with o tgt (FMissing e)) = LNotRead /\
+  load_target tgt (snd (load_with o tgt (FMissing e))) = Some tgt /\
+  (forall l c m, o_err o = Some (l, c, m) -> o_err (fst (load_with o tgt (FMissing e))) = Some (l, c, Some (EOs e))) /\
+  static_load 0 tgt (FMissing e) = LNotRead.
+Proof. exact load_missing. Qed.
+Print Assumptions xml_load_missing_file_fails_and_keeps_target.
+
+Theorem xml_save_writes_toString :
+  forall e, save_file e true = (true, Some (toString e)) /\ save_file e false = (false, None).
+Proof. exact save_writes_toString. Qed.
+Print Assumptions xml_save_writes_toString.
+
+Theorem xml_save_then_load_roundtrip : forall e o tgt, wf_tree e = true ->
+  exists content e', save_file e true = (true, Some content) /\
+                     snd (load_with o tgt (FData content)) = LParsed (Ok e') /\ erase e' = erase e /\
+                     load_target tgt (snd (load_with o tgt (FData content))) = Some e'.
+Proof. exact save_load_roundtrip. Qed.
+Print Assumptions xml_save_then_load_roundtrip.
+
+(* a file holding <a k="v">t</a>; a missing file on a Parser whose last parse failed at line 2 column 3 *)
+Example ex_load :
+  snd (load_with (new_parser 7) (N 0 0 [122] [] []) (FData [60;97;32;107;61;34;118;34;62;116;60;47;97;62]))
+    = LParsed (Ok (N 1 1 [97] [([107], [118])] [T [116]])) /\
+  load_with (mkParser 0 (Some (2, 3, Some EEof))) (N 0 0 [122] [] []) (FMissing [78; 111])
+    = (mkParser 0 (Some (2, 3, Some (EOs [78; 111]))), LNotRead).
+Proof. split; vm_compute; reflexivity. Qed.
